@@ -115,6 +115,7 @@ func c13(r *Report) {
 	c13CreateExistsInTx(r)
 	c13OneTransactionID(r)
 	c13AuditFixes(r)
+	c13Audit4(r)
 }
 
 // lookupOK: ok results of map lookups (v, ok := m[k]).
